@@ -10,7 +10,7 @@
 (* Node can see of one call (Clauses) and of one encoded value (RtClauses).*)
 (* Part 2 is a state machine of the call/reply loop AS CODED:              *)
 (*                                                                         *)
-(*     ret = self._functions[fname](*args)    <- the engine applies here   *)
+(*     ret = self._functions[fname](args..) <- the engine applies here   *)
 (*     self._send_to_js(DATA, ret)            <- marshal.dumps(ret) here   *)
 (*   except Exception as e:                                                *)
 (*     self._send_to_js(EXC, "%s %s" % ...)                                *)
@@ -151,7 +151,8 @@ NodeIssue ==
 
 \* Sandbox.run: marshal.load x 2 from the input pipe
 PyRead ==
-  /\ c2s # <<>> /\ (py = <<>> \/ Top(py).k = "ext")
+  /\ c2s # <<>>
+  /\ IF py = <<>> THEN TRUE ELSE Top(py).k = "ext"                 \* the main loop, or break_on_response
   /\ LET m == Head(c2s) IN
        /\ c2s' = Tail(c2s)
        /\ IF m.t = "CALL" THEN py' = Append(py, Frame("serve", m.id, m.kind, doc, "start"))
